@@ -728,6 +728,10 @@ def run(ctx, res):
         except CannotObserve as e:
             res.errors.append("cannot observe the implementation: %s (case %s)" % (e, public_case(case)))
             break
+        except Exception as e:   # noqa  the implementation raised something that is not a ValueError
+            case.setdefault("out", [])
+            exp = [-9]
+            res.count("implementation_raised_%s" % type(e).__name__)
         res.count("corr_%s" % KIND_NAME[case["kind"]])
         if exp is None:
             if case["kind"] == K_SLICES and len(case["msg"]) < case["n"] + case["m"] + 4:
